@@ -86,7 +86,13 @@ KINDS = {str: "KStr", int: "KInt", bool: "KBool", list: "KList"}
 def spec_of_arg(a):
     if a.kind not in KINDS:
         raise ValueError("kind not modelled: %r" % (a.kind,))
-    return {"names": list(a.names), "kind": KINDS[a.kind], "default": a.default,
+    import inspect
+    default = a.default
+    if default is inspect.Signature.empty:
+        # iterable parameter without default: Task.arg_opts passes Signature.empty through
+        # as the Argument's default; list-kind arguments never read it (value starts as [])
+        default = None
+    return {"names": list(a.names), "kind": KINDS[a.kind], "default": default,
             "positional": bool(a.positional), "optional": bool(a.optional),
             "incrementable": bool(a.incrementable), "attr_name": a.attr_name}
 
@@ -540,3 +546,313 @@ def has_digit_hazard(tok):
     """tokens on which Python's int() and the model's parse_int could differ
     (whitespace or underscore next to digits): never generated."""
     return any(ch.isdigit() for ch in tok) and any(ch in " \t_" for ch in tok)
+
+
+# --------------------------------------------------------------------------
+# intended invocations, spelling scripts, rendering (shared by C18 and C01)
+# --------------------------------------------------------------------------
+# invocation = [call]; call = {"task": index into specs, "as": name or alias,
+#                              "occs": [occurrence, ...]  (in command-line order)}
+# occurrence = {"arg": i, "name": k, "form": FORM, "val": VALUE}
+#            | {"cluster": [occurrence, ...]}          (one "-abc" token [+ value])
+# FORM  = "bare" (flag alone: bool True / optional-value flag -> True)
+#       | "inv"  (--no-x)          | "rep"/"stack" (counter: -v -v / -vv)
+#       | "next" (flag value)      | "eq" (flag=value) | "glued" (-xvalue) | "pos" (value alone)
+# VALUE = {"b": bool} | {"n": count} | {"s": text} | {"t": True}
+PLAIN_VALUES = ["abc", "x1", "v", "hello", "a b", "1.5", "Z"]
+INT_VALUES = ["5", "42", "0", "7"]
+
+
+def is_short(spec_arg, k):
+    return not to_flag_py(spec_arg["names"][k]).startswith("--")
+
+
+def short_index(a):
+    for k in range(len(a["names"])):
+        if is_short(a, k):
+            return k
+    return None
+
+
+def required_positionals(c):
+    return [i for i, a in enumerate(c["args"]) if a["positional"] and a["default"] is None
+            and not (a["kind"] == "KList") and not a["incrementable"]]
+
+
+def gen_value(rng, a, task_words, dash_values):
+    if a["kind"] == "KInt":
+        if dash_values and rng.random() < 0.3:
+            return rng.choice(["-3", "-12", "+4"])
+        return rng.choice(INT_VALUES)
+    if dash_values and rng.random() < 0.25:
+        return rng.choice(["-q", "-5", "--zz", "-xyz", "-"])
+    v = rng.choice(PLAIN_VALUES + ["5"])
+    return v
+
+
+def gen_occurrences(rng, c, specs, dash_values=False, mention=0.55):
+    """admissible occurrences for one call of context spec c, in final order"""
+    words = set()
+    for s in specs:
+        words.add(s["name"])
+        words.update(s["aliases"])
+    req = required_positionals(c)
+    occs = []
+    for i, a in enumerate(c["args"]):
+        if i not in req and rng.random() > mention:
+            continue
+        k = rng.randrange(len(a["names"]))
+        sk = short_index(a)
+        tv = takes_value(a)
+        if a["incrementable"]:
+            if not isinstance(a["default"], (int, bool)) or a["default"] is None:
+                continue
+            for _ in range(rng.choice([1, 1, 2])):
+                if sk is not None and rng.random() < 0.6:
+                    occs.append({"arg": i, "name": sk, "form": "stack", "val": {"n": rng.randint(1, 3)}})
+                else:
+                    occs.append({"arg": i, "name": k, "form": "rep", "val": {"n": rng.randint(1, 2)}})
+        elif not tv:
+            inv_fl = to_flag_py("no-" + a["names"][0])
+            clash = any(inv_fl in spellings_of_arg(b) for b in c["args"])
+            if a["kind"] == "KBool" and a["default"] is True and not clash and rng.random() < 0.7:
+                occs.append({"arg": i, "name": 0, "form": "inv", "val": {"b": False}})
+            else:
+                occs.append({"arg": i, "name": k, "form": "bare", "val": {"b": True}})
+        else:
+            n = rng.choice([1, 2, 3]) if a["kind"] == "KList" else 1
+            for _ in range(n):
+                if a["optional"] and a["kind"] != "KList" and i not in req and rng.random() < 0.45:
+                    occs.append({"arg": i, "name": k, "form": "bare", "val": {"t": True}})
+                    continue
+                v = gen_value(rng, a, words, dash_values and not a["optional"])
+                forms = ["next", "eq"]
+                if sk is not None:
+                    forms.append("glued")
+                if i in req:
+                    forms += ["pos", "pos", "pos"]
+                form = rng.choice(forms)
+                if i in req and a["optional"]:
+                    # a value-optional positional can only be given positionally
+                    form = "pos"
+                    v = rng.choice(PLAIN_VALUES)
+                kk = sk if form == "glued" else k
+                occs.append({"arg": i, "name": kk, "form": form, "val": {"s": v}})
+    rng.shuffle(occs)
+    return fix_order(c, occs, words)
+
+
+def fix_order(c, occs, words):
+    """enforce the admissibility side conditions that depend on order"""
+    req = required_positionals(c)
+    out, deferred = [], []
+    given = set()
+
+    def first_missing():
+        for i in req:
+            if i not in given:
+                return i
+        return None
+
+    pending = list(occs)
+    flushed = False
+    while pending or deferred:
+        if not pending:
+            # only value-optional occurrences are left: required ones first, in declared order
+            pending = sorted(deferred, key=lambda o: (o["arg"] not in req, o["arg"]))
+            deferred = []
+            flushed = True
+        o = pending.pop(0)
+        a = c["args"][o["arg"]]
+        if o["form"] == "pos":
+            if first_missing() != o["arg"] or o["arg"] in given:
+                o = dict(o, form="next")
+        if a["optional"] and takes_value(a) and first_missing() is not None \
+                and first_missing() != o["arg"] and not flushed:
+            deferred.append(o)      # optional-value flags only once no positional is missing
+            continue
+        if a["optional"] and takes_value(a) and o["arg"] in req and o["arg"] not in given \
+                and first_missing() == o["arg"]:
+            o = dict(o, form="pos")
+        out.append(o)
+        if takes_value(a) and ("s" in o["val"] or "t" in o["val"]):
+            given.add(o["arg"])
+        if first_missing() is None and deferred:
+            pending = deferred + pending
+            deferred = []
+    # values that would be misread: glued/next/pos values must be safe for their form
+    res = []
+    for o in out:
+        a = c["args"][o["arg"]]
+        if "s" in o["val"]:
+            v = o["val"]["s"]
+            if o["form"] == "pos" and v.startswith("-"):
+                o = dict(o, form="eq")
+            if o["form"] in ("next", "pos") and (v in words):
+                if a["optional"] or o["form"] == "pos" and False:
+                    o = dict(o, form="eq")
+            if o["form"] == "glued" and (v == "" or v.startswith("=")):
+                o = dict(o, form="eq")
+            if o["form"] == "next" and a["optional"] and (v.startswith("-") or v in words):
+                o = dict(o, form="eq")
+            if o["form"] == "eq" and a["optional"] and v in words:
+                o = dict(o, val={"s": v + "_"})
+        res.append(o)
+    return res
+
+
+def render_occ(c, o):
+    if "cluster" in o:
+        letters = ""
+        tail = []
+        for m in o["cluster"]:
+            a = c["args"][m["arg"]]
+            ch = to_flag_py(a["names"][m["name"]])[1]
+            if m["form"] == "stack":
+                letters += ch * m["val"]["n"]
+            elif m["form"] == "next":
+                letters += ch
+                tail = [m["val"]["s"]]
+            else:
+                letters += ch
+        return ["-" + letters] + tail
+    a = c["args"][o["arg"]]
+    fl = to_flag_py(a["names"][o["name"]])
+    f = o["form"]
+    if f == "bare":
+        return [fl]
+    if f == "inv":
+        return [to_flag_py("no-" + a["names"][0])]
+    if f == "rep":
+        return [fl] * o["val"]["n"]
+    if f == "stack":
+        return ["-" + fl[1] * o["val"]["n"]]
+    v = o["val"]["s"]
+    if f == "next":
+        return [fl, v]
+    if f == "eq":
+        return [fl + "=" + v]
+    if f == "glued":
+        return [fl + v]
+    if f == "pos":
+        return [v]
+    raise ValueError(f)
+
+
+def cluster_pass(rng, c, occs, p=0.5):
+    """merge runs of short bare booleans / stacked counters into one '-abc' token,
+    optionally ending in a value flag whose value is the next token"""
+    out = []
+    i = 0
+    while i < len(occs):
+        run = []
+        j = i
+        while j < len(occs):
+            o = occs[j]
+            a = c["args"][o["arg"]]
+            ok = (o["form"] == "bare" and "b" in o["val"] and is_short(a, o["name"])) or o["form"] == "stack"
+            if not ok:
+                break
+            run.append(o)
+            j += 1
+        if len(run) >= 2 and rng.random() < p:
+            members = list(run)
+            if j < len(occs) and rng.random() < 0.3:
+                o = occs[j]
+                a = c["args"][o["arg"]]
+                if o["form"] == "next" and is_short(a, o["name"]) and not a["optional"] \
+                        and not o["val"]["s"].startswith("-"):
+                    members.append(o)
+                    j += 1
+            out.append({"cluster": members})
+            i = j
+        else:
+            out.append(occs[i])
+            i += 1
+    return out
+
+
+def gen_invocation(rng, specs, dash_values=False, max_calls=3, clusters=True):
+    calls = []
+    n = rng.choice([1, 1, 2, 2, 3][:2 + max_calls])
+    for ci_ in range(n):
+        ci = rng.randrange(len(specs))
+        c = specs[ci]
+        occs = gen_occurrences(rng, c, specs, dash_values)
+        if clusters:
+            occs = cluster_pass(rng, c, occs)
+        calls.append({"task": ci, "as": rng.choice([c["name"]] + c["aliases"]), "occs": occs})
+    # a bare optional-value flag must not be followed by a task name or a positional value
+    for idx, call in enumerate(calls):
+        c = specs[call["task"]]
+        occs = call["occs"]
+        for k, o in enumerate(occs):
+            if "cluster" in o or not (o["form"] == "bare" and "t" in o["val"]):
+                continue
+            last = k == len(occs) - 1
+            nxt_pos = (not last) and "cluster" not in occs[k + 1] and occs[k + 1]["form"] == "pos"
+            if (last and idx < len(calls) - 1) or nxt_pos:
+                occs[k] = dict(o, form="eq", val={"s": "ov"})
+    return calls
+
+
+def spell_groups(specs, inv):
+    groups = []
+    for call in inv:
+        c = specs[call["task"]]
+        groups.append([call["as"]])
+        for o in call["occs"]:
+            groups.append(render_occ(c, o))
+    return groups
+
+
+def flat_occs(occs):
+    for o in occs:
+        if "cluster" in o:
+            for m in o["cluster"]:
+                yield m
+        else:
+            yield o
+
+
+def expected_calls(specs, inv):
+    """[(primary name, [[param, value], ...])]: declared defaults, overridden by the
+    intended values typed by kind"""
+    out = []
+    for call in inv:
+        c = specs[call["task"]]
+        vals = {}
+        for i, a in enumerate(c["args"]):
+            vals[i] = a["default"]
+        lists = {}
+        for o in flat_occs(call["occs"]):
+            a = c["args"][o["arg"]]
+            v = o["val"]
+            if "n" in v:
+                cur = vals[o["arg"]]
+                vals[o["arg"]] = int(cur) + v["n"]
+            elif "b" in v:
+                vals[o["arg"]] = v["b"]
+            elif "t" in v:
+                vals[o["arg"]] = True
+            else:
+                s = v["s"]
+                if a["kind"] == "KList":
+                    lists.setdefault(o["arg"], []).append(s)
+                elif a["kind"] == "KInt":
+                    vals[o["arg"]] = int(s)
+                elif a["kind"] == "KBool":
+                    vals[o["arg"]] = bool(s)
+                else:
+                    vals[o["arg"]] = s
+        for i, l in lists.items():
+            vals[i] = {"list": l}
+        kw = []
+        for i, a in enumerate(c["args"]):
+            nm = a["attr_name"] or a["names"][0]
+            v = vals[i]
+            if isinstance(v, list):
+                v = {"list": [x if isinstance(x, str) else repr(x) for x in v]}
+            kw.append([nm, v])
+        out.append([c["name"], kw])
+    return out
